@@ -28,6 +28,8 @@ macro_rules! exception {
             concat!("exception: ", $fmt, ", exiting")
             $($tt)*
         );
+        #[cfg(feature = "verif")]
+        crate::verif::exit(0xEE);
         std::process::exit(0xEE);
     }};
 }
@@ -128,6 +130,8 @@ impl RunEnvironment {
     /// Run with preset memory
     pub fn run(&mut self) {
         loop {
+            #[cfg(feature = "verif")]
+            crate::verif::tick();
             if let Some(debugger) = &mut self.debugger {
                 Output::Debugger(Condition::Always, Default::default()).start_new_line();
 
@@ -182,12 +186,55 @@ impl RunEnvironment {
             }
 
             let instr = self.state.mem[self.state.pc as usize];
+            #[cfg(feature = "verif")]
+            crate::verif::fetch(self.state.pc, instr);
             // PC incremented before instruction is performed
             self.state.pc += 1;
             self.state.execute(instr);
         }
 
         Output::Normal.start_new_line();
+    }
+}
+
+#[cfg(feature = "verif")]
+impl RunEnvironment {
+    pub fn verif_view(&self) -> crate::verif::StateView<'_> {
+        self.state.verif_view()
+    }
+    /// Overwrite registers, PC and condition code (3 bits `nzp`, anything else = none).
+    pub fn verif_set(&mut self, reg: [u16; 8], pc: u16, cc: u8) {
+        self.state.reg = reg;
+        self.state.pc = pc;
+        self.state.flag = match cc {
+            0b100 => RunFlag::N,
+            0b010 => RunFlag::Z,
+            0b001 => RunFlag::P,
+            _ => RunFlag::Uninit,
+        };
+    }
+    pub fn verif_mem_mut(&mut self) -> &mut [u16; MEMORY_MAX] {
+        &mut self.state.mem
+    }
+    /// Execute one instruction word on the current state (PC is not incremented first).
+    pub fn verif_execute(&mut self, instr: u16) {
+        self.state.execute(instr);
+    }
+    pub fn verif_has_debugger(&self) -> bool {
+        self.debugger.is_some()
+    }
+}
+
+#[cfg(feature = "verif")]
+impl RunState {
+    pub(crate) fn verif_view(&self) -> crate::verif::StateView<'_> {
+        crate::verif::StateView {
+            reg: &self.reg,
+            pc: self.pc,
+            cc: self.flag as u8,
+            orig: self.orig,
+            mem: &self.mem,
+        }
     }
 }
 
@@ -306,6 +353,8 @@ impl RunState {
                 Halting...\
                 "
             );
+            #[cfg(feature = "verif")]
+            crate::verif::exit(1);
             std::process::exit(1);
         }
 
@@ -580,12 +629,18 @@ fn read_char() -> char {
 /// Handles `UnexpectedEof` by printing error minimally and exiting.
 /// Panics on any other error.
 fn read_byte_stdin(mut stdin: io::Stdin) -> u8 {
+    #[cfg(feature = "verif")]
+    if let Some(byte) = crate::verif::input() {
+        return byte;
+    }
     let mut buf = [0; 1];
     if let Err(err) = stdin.read_exact(&mut buf) {
         if let io::ErrorKind::UnexpectedEof = err.kind() {
             // This should NOT use `exception!`: it is an error with the
             // emulator, not the CPU
             eprintln!("unexpected end of input file stream.");
+            #[cfg(feature = "verif")]
+            crate::verif::exit(1);
             std::process::exit(1);
         } else {
             panic!("failed to read character from stdin: {:?}", err)
